@@ -136,6 +136,8 @@ class Check(object):
                 if w not in self._printed_known:
                     self._printed_known.add(w)
                     print("KNOWN-FINDING: property=%s %s" % (self.pid, w))
+                if os.environ.get("VERIF_SHOW_KNOWN"):
+                    print("  known-match: %s :: %s" % (json.dumps(sig, sort_keys=True), what[:900]))
                 return False
         d = os.path.join(VERIF, "replays", self.pid)
         os.makedirs(d, exist_ok=True)
